@@ -1,6 +1,9 @@
 use allocative::Allocative;
 use itertools::Itertools;
+#[cfg(not(all(kani, feature = "verif-models")))]
 use std::collections::{HashMap, HashSet};
+#[cfg(all(kani, feature = "verif-models"))]
+use crate::util::verif_collections::{HashMap, HashSet};
 use std::hash::Hash;
 use std::iter::Enumerate;
 
